@@ -353,8 +353,8 @@ def run(ctx):
         exe_k = vf.build_cpp(ctx, 'cx_locmin.cpp', 'plain')
     except vf.BuildFailure as e:
         exe_k, tie_broken = None, str(e)
-    n = 240 if ctx.quick else 3000
-    G = 16 if ctx.quick else 32
+    n = 240 if ctx.quick else 1200
+    G = 16 if ctx.quick else 24
     if broken or tie_broken:
         n *= 3
     cases = gen_cases(ctx, n)
